@@ -7,6 +7,10 @@
 //	oneshot concurrent <gomaxprocs> <group>  the calls are released in consecutive groups of <group> calls, one
 //	                                 group after the other (first calls of one size class at a time)
 //
+//	oneshot giant <fam> <n> <alphabet>  one call whose content is <n> characters cycling through <alphabet>
+//	                                 (built here, no stdin); prints "giant: error", "giant: barcode WxH" or "giant: panic".
+//	                                 A fatal runtime error (stack exhaustion, out of memory) kills the process.
+//
 // stdin: JSON array of enc.EncSpec. stdout: JSON {"fingerprints": [...], "goroutines_before": n, "goroutines_after": n}.
 package main
 
@@ -27,6 +31,25 @@ func main() {
 	if len(os.Args) < 2 {
 		fmt.Fprintln(os.Stderr, "usage: oneshot seq|concurrent <gomaxprocs>")
 		os.Exit(2)
+	}
+	if os.Args[1] == "giant" && len(os.Args) == 5 {
+		n, _ := strconv.Atoi(os.Args[3])
+		alpha := os.Args[4]
+		buf := make([]byte, n)
+		for i := range buf {
+			buf[i] = alpha[(i+i/len(alpha))%len(alpha)]
+		}
+		bc, err, pv := enc.Encode(enc.EncSpec{Fam: os.Args[2], Content: enc.BStr(buf), A: 1, F2: true})
+		switch {
+		case pv != nil:
+			fmt.Printf("giant: panic %v\n", pv)
+		case err != nil:
+			fmt.Println("giant: error")
+		default:
+			b := bc.Bounds()
+			fmt.Printf("giant: barcode %dx%d\n", b.Dx(), b.Dy())
+		}
+		return
 	}
 	// input: either a JSON array of specs, or {"specs": [...], "after": [...]}; the "after" calls are executed
 	// sequentially once the first phase has finished (is the shared state still sound after the contention?)
